@@ -2,10 +2,11 @@
 # usage: tools/verify_seeded.sh <dir with patch.diff + demo.cpp> <name> [check ids...]
 # Confirms in a fresh scratch worktree: patch applies, project builds with its own flags, all unit tests pass,
 # demo passes on the original sources and fails with the change; then runs the quick checks against the changed tree.
+# VERIF_BASE=<commit> verifies against an earlier commit of /repo (for a change that relied on a defect fixed since).
 D=$1; N=$2; shift; shift
 WT=/tmp/wt/verify-$N
 git -C /repo worktree remove --force $WT 2>/dev/null
-git -C /repo worktree add -q --detach $WT HEAD || exit 9
+git -C /repo worktree add -q --detach $WT ${VERIF_BASE:-HEAD} || exit 9
 cd $WT
 if ! git apply $D/patch.diff; then echo "$N: PATCH DOES NOT APPLY"; git -C /repo worktree remove --force $WT; exit 1; fi
 git diff --stat | tail -1
@@ -15,7 +16,9 @@ if ! cmake --build _build > _build/log 2>&1; then echo "$N: BUILD FAILS"; tail -
   echo "$N: unit tests with change: $T"
 fi
 g++ -std=c++17 -pthread -I$WT/include $D/demo.cpp $WT/src/*.cpp -o /tmp/wt/demo-$N-mut 2>/tmp/wt/demo-$N.err && (timeout 300 /tmp/wt/demo-$N-mut > /tmp/wt/demo-$N-mut.out 2>&1; echo "$N: demo WITH change exit=$?")
-g++ -std=c++17 -pthread -I/repo/include $D/demo.cpp /repo/src/*.cpp -o /tmp/wt/demo-$N-orig 2>>/tmp/wt/demo-$N.err && (timeout 300 /tmp/wt/demo-$N-orig > /tmp/wt/demo-$N-orig.out 2>&1; echo "$N: demo on ORIGINAL exit=$?")
+git apply -R $D/patch.diff
+g++ -std=c++17 -pthread -I$WT/include $D/demo.cpp $WT/src/*.cpp -o /tmp/wt/demo-$N-orig 2>>/tmp/wt/demo-$N.err && (timeout 300 /tmp/wt/demo-$N-orig > /tmp/wt/demo-$N-orig.out 2>&1; echo "$N: demo on ORIGINAL exit=$?")
+git apply $D/patch.diff
 rm -rf _build /tmp/wt/demo-$N-mut /tmp/wt/demo-$N-orig
 cd /verif
 tools/run_seeded.sh $WT "$@" | grep -v "violations=0"
